@@ -12,10 +12,12 @@ import (
 	"math/rand"
 	"os"
 	"path/filepath"
+	"runtime"
 	"runtime/debug"
 	"sort"
 	"strconv"
 	"strings"
+	"time"
 
 	"github.com/lindb/lindb/pkg/queue"
 
@@ -69,8 +71,16 @@ type sim struct {
 	// oracle state
 	reset     bool // an explicit index reset happened in this case: clauses (1) and (5) are suspended
 	backReset bool // a backwards SetAppendedSeq happened (stale index entries may exist above appended)
-	dead      bool // a panic happened: the case is abandoned
+	dead      bool // a panic happened (or a parked call could not be observed): the case is abandoned
 	nops      int
+	park      *parkedCall // the Consume call currently parked in NotEmpty (at most one)
+}
+
+// parkedCall is a Consume call running on its own goroutine, blocked in Queue.NotEmpty.
+type parkedCall struct {
+	g    int
+	head int64 // consumed+1 at the time of the call
+	ch   chan int64
 }
 
 func (s *sim) snap() snapshot {
@@ -181,7 +191,7 @@ func (s *sim) oracle(kind string, g int, n int64, res string, b, a snapshot, met
 				s.fail("sync-moved-queue-ack-without-groups", "queue ack %d -> %d with no live group", b.ack, a.ack)
 			}
 		}
-		if a.app != b.app && kind != "append" && kind != "appendn" {
+		if a.app != b.app && kind != "append" && kind != "appendn" && kind != "appendwake" {
 			s.fail("appended-changed-by-"+kind, "appended %d -> %d", b.app, a.app)
 		}
 	}
@@ -236,6 +246,37 @@ func (s *sim) oracle(kind string, g int, n int64, res string, b, a snapshot, met
 			}
 			if !s.paused[g] && bp.c+1 <= b.app {
 				s.fail("consume-missed-message", "consumed %d appended %d but Consume returned -1", bp.c, b.app)
+			}
+		}
+	case "cend", "appendwake", "pausewake":
+		// (2) for a Consume call that was parked while other goroutines moved the positions: what it
+		// hands out is consumed+1 AT THE TIME IT RETURNS (b is the snapshot taken after the last
+		// operation of the other goroutine, before the wake-up), and that becomes the consumed position
+		if !live || bp.c < -1 {
+			break
+		}
+		v, err := strconv.ParseInt(res, 10, 64)
+		if err != nil {
+			break
+		}
+		if v != -1 {
+			if v != bp.c+1 || ap.c != v || ap.a != bp.a {
+				s.fail("parked-consume-not-consecutive", "%s: consumed was %d (ack %d) when the parked Consume was woken, it returned %d, positions now %v", kind, bp.c, bp.a, v, ap)
+			}
+			if v > a.app {
+				s.fail("parked-consume-beyond-appended", "%s: parked Consume returned %d, appended %d", kind, v, a.app)
+			}
+			if v > a.ack && v <= a.app && (!s.reset || v == a.app) {
+				if _, err := s.fq.Queue().Get(v); err != nil {
+					s.fail("parked-consume-unreadable", "%s: parked Consume returned %d, Get(%d) = %v (queue %d/%d)", kind, v, v, err, a.app, a.ack)
+				}
+			}
+		} else {
+			if ap != bp {
+				s.fail("parked-empty-consume-changed-positions", "%s: %v -> %v", kind, bp, ap)
+			}
+			if kind != "pausewake" && !s.paused[g] && bp.c+1 <= a.app {
+				s.fail("parked-consume-missed-message", "%s: consumed %d appended %d but the woken Consume returned -1", kind, bp.c, a.app)
 			}
 		}
 	case "ack": // (3)
@@ -536,6 +577,309 @@ func (s *sim) doReopen(rng *rand.Rand) {
 	s.readable("reopen", rng)
 }
 
+// ---- a Consume call parked in NotEmpty while this goroutine goes on (two-step Consume)
+
+// parkedInNotEmpty reports whether some goroutine is blocked in sync.Cond.Wait below queue.NotEmpty.
+func parkedInNotEmpty() bool {
+	buf := make([]byte, 1<<16)
+	for {
+		n := runtime.Stack(buf, true)
+		if n < len(buf) {
+			buf = buf[:n]
+			break
+		}
+		buf = make([]byte, 2*len(buf))
+	}
+	for _, blk := range strings.Split(string(buf), "\n\n") {
+		if strings.Contains(blk, "[sync.Cond.Wait") && strings.Contains(blk, "pkg/queue.(*queue).NotEmpty") {
+			return true
+		}
+	}
+	return false
+}
+
+// join waits for the parked call to return.
+func (s *sim) join(pk *parkedCall) (int64, bool) {
+	select {
+	case v := <-pk.ch:
+		return v, true
+	case <-time.After(20 * time.Second):
+		return 0, false
+	}
+}
+
+// doCBegin starts `Consume` of the drained, un-paused group g on its own goroutine and waits until
+// it is parked in NotEmpty. If the parked state cannot be observed the case is abandoned (counted
+// as a branch, never an alarm).
+func (s *sim) doCBegin(g int) bool {
+	h, ok := s.gs[g]
+	if !ok || s.dead || s.park != nil || s.paused[g] || h.ConsumedSeq()+1 <= s.fq.Queue().AppendedSeq() {
+		return false
+	}
+	pk := &parkedCall{g: g, head: h.ConsumedSeq() + 1, ch: make(chan int64, 1)}
+	go func() {
+		debug.SetPanicOnFault(true)
+		defer func() {
+			if r := recover(); r != nil {
+				pk.ch <- -99
+			}
+		}()
+		pk.ch <- h.Consume()
+	}()
+	seen := false
+	for dl := time.Now().Add(3 * time.Second); time.Now().Before(dl); {
+		if parkedInNotEmpty() {
+			seen = true
+			break
+		}
+		time.Sleep(100 * time.Microsecond)
+	}
+	if !seen {
+		h.Pause() // releases the call wherever it is
+		s.join(pk)
+		s.dead = true
+		s.c.Branch("parked/not-observed(case abandoned)")
+		return false
+	}
+	s.park = pk
+	s.op("cbegin", g, 0, fmt.Sprintf("cbegin %d", g), func() string { return "parked" })
+	s.c.Branch("parked/begin")
+	return true
+}
+
+// wake runs f (which makes NotEmpty return) and waits for the parked call.
+func (s *sim) wake(kind, line string, f func()) int64 {
+	pk := s.park
+	var v int64 = -1
+	s.op(kind, pk.g, 0, line, func() string {
+		f()
+		r, ok := s.join(pk)
+		s.park = nil
+		if !ok {
+			s.fail("parked-consume-not-woken", "%s: the parked Consume (head %d) did not return within 20s", line, pk.head)
+			s.dead = true
+			pk2 := s.gs[pk.g]
+			pk2.Pause()
+			return "timeout"
+		}
+		if r == -99 {
+			panic("parked Consume panicked")
+		}
+		v = r
+		return strconv.FormatInt(r, 10)
+	})
+	return v
+}
+
+// enabled: NotEmpty of the parked call can return (its head is at or below the appended position).
+func (s *sim) parkEnabled(extra int64) bool {
+	return s.park != nil && s.park.head <= s.fq.Queue().AppendedSeq()+extra
+}
+
+func (s *sim) doCEnd() int64 {
+	g := s.park.g
+	s.c.Branch("parked/wake-by-signal")
+	return s.wake("cend", fmt.Sprintf("cend %d", g), func() { s.fq.Queue().Signal() })
+}
+
+func (s *sim) doAppendWake(n int) int64 {
+	g := s.park.g
+	buf := make([]byte, n)
+	s.c.Branch("parked/wake-by-put")
+	return s.wake("appendwake", fmt.Sprintf("appendwake %d %d", n, g), func() {
+		if err := s.fq.Queue().Put(buf); err != nil {
+			panic(err)
+		}
+	})
+}
+
+func (s *sim) doPauseWake() int64 {
+	g := s.park.g
+	h := s.gs[g]
+	s.c.Branch("parked/wake-by-pause")
+	return s.wake("pausewake", fmt.Sprintf("pausewake %d", g), func() { h.Pause(); s.paused[g] = true })
+}
+
+// release makes sure no goroutine is left parked when a case ends abnormally.
+func (s *sim) release() {
+	if s.park != nil {
+		if h, ok := s.gs[s.park.g]; ok {
+			h.Pause()
+		}
+		s.join(s.park)
+		s.park = nil
+	}
+}
+
+// parkRound: park a Consume of group g, let "another goroutine" (this one) run up to three
+// operations — rewinds, resets, acks, the other group — then wake it (Signal if it became
+// enabled, otherwise Puts, at last Pause) and look at what it hands out.
+func (s *sim) parkRound(rng *rand.Rand, g int, mids []func()) {
+	for h := s.gs[g]; !s.dead && !s.paused[g] && h.ConsumedSeq()+1 <= s.fq.Queue().AppendedSeq(); {
+		s.doConsume(g)
+	}
+	if !s.doCBegin(g) {
+		return
+	}
+	v := int64(-2)
+	for _, m := range mids {
+		if s.dead {
+			break
+		}
+		m()
+		if !s.dead && s.parkEnabled(0) {
+			v = s.doCEnd()
+			break
+		}
+	}
+	for k := 0; k < 5 && s.park != nil && !s.dead; k++ {
+		if s.parkEnabled(1) {
+			v = s.doAppendWake(rng.Intn(40) + 1)
+		} else {
+			s.doAppend(rng.Intn(40) + 1) // the call stays parked: its head is still above appended
+		}
+	}
+	if s.park != nil && !s.dead {
+		v = s.doPauseWake()
+	}
+	if v >= 0 && !s.dead {
+		s.get(v)
+	}
+}
+
+// unpause replaces a paused handle by a fresh one (stop + create restores it from its meta page).
+func (s *sim) unpause(g int) {
+	if s.paused[g] && !s.dead {
+		s.doStop(g)
+		s.doCreate(g)
+	}
+}
+
+// caseParkedFixed: the three shapes of the seeded stale-head change, deterministically.
+func (s *sim) caseParkedFixed(rng *rand.Rand) {
+	s.doCreate(0)
+	s.doCreate(1)
+	for i := 0; i < 10; i++ {
+		s.doAppend(i + 1)
+	}
+	for i := 0; i < 10; i++ {
+		s.doConsume(0)
+	}
+	s.doAck(0, 2)
+	// rewind inside [ack, appended] while parked: the woken call must hand out 4
+	s.parkRound(rng, 0, []func(){func() { s.doSetConsumed(0, 3) }})
+	// index reset backwards while parked: the call stays parked until its old head is appended again
+	s.parkRound(rng, 0, []func(){func() { s.doSetAppended(s.fq.Queue().AppendedSeq() - 3) }})
+	// nothing in between
+	s.parkRound(rng, 0, nil)
+	// SetSeq below, then the other group
+	s.parkRound(rng, 0, []func(){func() { s.doSetSeq(0, s.gs[0].AcknowledgedSeq()) }, func() { s.doConsume(1) }})
+	s.doSync()
+	s.doGC(rng)
+	s.pages()
+}
+
+// caseParkedForward: an index reset forwards (no backwards reset before) enables the parked call
+// without waking it; it is then woken by Signal and must find nothing to consume.
+func (s *sim) caseParkedForward(rng *rand.Rand) {
+	s.doCreate(0)
+	for i := 0; i < 6; i++ {
+		s.doAppend(i + 1)
+	}
+	s.doAck(0, -1)
+	s.parkRound(rng, 0, []func(){func() { s.doSetAppended(s.fq.Queue().AppendedSeq() + 3) }})
+	s.parkRound(rng, 0, nil)
+	s.doSync()
+	s.doGC(rng)
+}
+
+func (s *sim) caseParkedRandom(rng *rand.Rand) {
+	ng := 2
+	for g := 0; g < ng; g++ {
+		s.doCreate(g)
+	}
+	for k := rng.Intn(10) + 3; k > 0; k-- {
+		s.doAppend(rng.Intn(40) + 1)
+	}
+	for k := rng.Intn(8); k > 0; k-- {
+		s.doConsume(1)
+	}
+	if h := s.gs[1]; h.ConsumedSeq() >= 0 {
+		s.doAck(1, rng.Int63n(h.ConsumedSeq()+1))
+	}
+	rounds := 1 + rng.Intn(3)
+	for r := 0; r < rounds && !s.dead; r++ {
+		g := 0
+		s.unpause(g)
+		h := s.gs[g]
+		if h == nil {
+			return
+		}
+		for !s.dead && h.ConsumedSeq()+1 <= s.fq.Queue().AppendedSeq() {
+			s.doConsume(g)
+		}
+		if lo, hi := h.AcknowledgedSeq(), h.ConsumedSeq(); hi >= lo && rng.Intn(2) == 0 {
+			s.doAck(g, lo+rng.Int63n(hi-lo+1))
+		}
+		if rng.Intn(3) == 0 {
+			s.doSync()
+		}
+		var mids []func()
+		for k := rng.Intn(4); k > 0; k-- {
+			switch e := rng.Intn(12); {
+			case e < 4: // rewind / reposition
+				mids = append(mids, func() {
+					lo, hi := h.AcknowledgedSeq(), s.fq.Queue().AppendedSeq()
+					switch x := rng.Intn(4); {
+					case x < 2 && hi >= lo:
+						s.doSetConsumed(g, lo+rng.Int63n(hi-lo+1))
+					case x == 2:
+						s.doSetConsumed(g, h.ConsumedSeq())
+					default:
+						s.doSetConsumed(g, int64(rng.Intn(int(hi+4)+1))-1)
+					}
+				})
+			case e < 7: // index reset
+				mids = append(mids, func() {
+					app := s.fq.Queue().AppendedSeq()
+					if rng.Intn(3) == 0 {
+						s.doSetAppended(app + int64(rng.Intn(4)))
+					} else {
+						s.doSetAppended(app - int64(rng.Intn(5)))
+					}
+				})
+			case e == 7:
+				mids = append(mids, func() { s.doSetSeq(g, int64(rng.Intn(int(s.fq.Queue().AppendedSeq()+3)+1))-1) })
+			case e == 8:
+				mids = append(mids, func() {
+					if lo, hi := h.AcknowledgedSeq(), h.ConsumedSeq(); hi >= lo {
+						s.doAck(g, lo+rng.Int63n(hi-lo+1))
+					}
+				})
+			case e == 9:
+				mids = append(mids, func() { s.doConsume(1) })
+			case e == 10:
+				mids = append(mids, func() { s.doSync() })
+			default:
+				mids = append(mids, func() {
+					if h1 := s.gs[1]; h1 != nil && h1.ConsumedSeq() >= h1.AcknowledgedSeq() {
+						s.doAck(1, h1.AcknowledgedSeq()+rng.Int63n(h1.ConsumedSeq()-h1.AcknowledgedSeq()+1))
+					}
+				})
+			}
+		}
+		s.parkRound(rng, g, mids)
+		for k := rng.Intn(3); k > 0 && !s.dead; k-- {
+			s.doConsume(g)
+		}
+	}
+	if !s.dead {
+		s.doSync()
+		s.doGC(rng)
+		s.pages()
+	}
+}
+
 // scratch returns a fresh scratch directory; cases that write whole data pages prefer a
 // memory-backed file system when there is one.
 func scratch(big bool) (string, error) {
@@ -586,6 +930,12 @@ func (a area) Run(c *core.Ctx) error {
 				s.casePages(rng, i)
 			case "index-pages":
 				s.caseIndexPages(rng)
+			case "parked-fixed":
+				s.caseParkedFixed(rng)
+			case "parked-forward":
+				s.caseParkedForward(rng)
+			case "parked":
+				s.caseParkedRandom(rng)
 			default:
 				s.caseRandom(rng, kind)
 			}
@@ -593,6 +943,7 @@ func (a area) Run(c *core.Ctx) error {
 		if s.nops >= 5 && !s.dead {
 			c.NonTrivial()
 		}
+		s.release()
 		s.close()
 		os.RemoveAll(dir)
 	}
@@ -611,11 +962,17 @@ func caseKind(i int, tier string, rng *rand.Rand) string {
 		if tier == "thorough" {
 			return "index-pages"
 		}
+	case 4:
+		return "parked-fixed"
+	case 5:
+		return "parked-forward"
 	}
 	if tier == "thorough" && i%40 == 7 {
 		return "pages"
 	}
 	switch r := rng.Intn(100); {
+	case r < 12:
+		return "parked"
 	case r < 55:
 		return "random"
 	case r < 70:
